@@ -7,6 +7,8 @@
 package c11
 
 import (
+	"context"
+	"encoding/base64"
 	"encoding/json"
 	"fmt"
 	"net"
@@ -17,7 +19,10 @@ import (
 	"testing"
 	"time"
 
+	"github.com/database64128/shadowsocks-go/conn"
+	"github.com/database64128/shadowsocks-go/ss2022"
 	"github.com/database64128/shadowsocks-go/verifhook"
+	"github.com/database64128/shadowsocks-go/zerocopy"
 	"go.uber.org/zap/zapcore"
 
 	"verif/harness/internal/relayenv"
@@ -25,11 +30,18 @@ import (
 )
 
 type action struct {
-	N   string `json:"n"`
-	S   string `json:"s"`
-	T   string `json:"t"`
-	To  string `json:"to"`
-	Out string `json:"out"`
+	N    string          `json:"n"`
+	S    string          `json:"s"`
+	T    string          `json:"t"`
+	To   json.RawMessage `json:"to"`
+	From int             `json:"from"`
+	Out  string          `json:"out"`
+}
+
+func (a *action) toInt() int {
+	var i int
+	_ = json.Unmarshal(a.To, &i)
+	return i
 }
 
 type parked struct {
@@ -202,11 +214,16 @@ var debug = os.Getenv("VERIF_DEBUG") != ""
 var dnsOnce sync.Once
 
 func relayConfig(v variant, rejectIP string) []byte {
+	server := map[string]any{
+		"name": "s1", "protocol": v.Server, "mtu": 1500,
+		"udpListeners": []any{map[string]any{"network": "udp4", "address": "127.0.0.1:0", "natTimeout": v.NATTimeout, "batchMode": v.BatchMode}},
+	}
+	if v.Server == "ss2022" {
+		server["protocol"] = "2022-blake3-aes-128-gcm"
+		server["psk"] = base64.StdEncoding.EncodeToString(ssPSK)
+	}
 	cfg := map[string]any{
-		"servers": []any{map[string]any{
-			"name": "s1", "protocol": v.Server, "mtu": 1500,
-			"udpListeners": []any{map[string]any{"network": "udp4", "address": "127.0.0.1:0", "natTimeout": v.NATTimeout, "batchMode": v.BatchMode}},
-		}},
+		"servers": []any{server},
 		"clients": []any{map[string]any{"name": "direct", "protocol": "direct", "enableUDP": true, "mtu": 1500}},
 		"router": map[string]any{
 			"defaultUDPClientName": "direct",
@@ -214,6 +231,90 @@ func relayConfig(v variant, rejectIP string) []byte {
 		},
 	}
 	b, _ := json.Marshal(cfg)
+	return b
+}
+
+// wire is the client side of the server protocol under test.
+type wire interface {
+	pack(sess, target string, payload []byte) ([]byte, error)
+	unpack(sess string, pkt []byte, from netip.AddrPort) (src string, payload []byte, err error)
+	garbage() []byte
+}
+
+type socks5Wire struct{}
+
+func (socks5Wire) pack(_, target string, payload []byte) ([]byte, error) {
+	return relayenv.Socks5UDP(target, payload)
+}
+func (socks5Wire) unpack(_ string, pkt []byte, _ netip.AddrPort) (string, []byte, error) {
+	return relayenv.ParseSocks5UDP(pkt)
+}
+func (socks5Wire) garbage() []byte { return []byte{0, 0, 1, 9, 9} }
+
+var ssPSK = []byte("0123456789abcdef")
+
+// ss2022Wire packs with one real Shadowsocks 2022 client session per model session.
+type ss2022Wire struct {
+	relay netip.AddrPort
+	sess  map[string]*zerocopy.UDPClientSession
+	info  map[string]zerocopy.UDPClientSessionInfo
+}
+
+func (w *ss2022Wire) session(name string) (*zerocopy.UDPClientSession, zerocopy.UDPClientSessionInfo, error) {
+	if s := w.sess[name]; s != nil {
+		return s, w.info[name], nil
+	}
+	ccc, err := ss2022.NewClientCipherConfig(ssPSK, nil, true)
+	if err != nil {
+		return nil, zerocopy.UDPClientSessionInfo{}, err
+	}
+	c := ss2022.NewUDPClient("h", "ip", conn.AddrFromIPPort(w.relay), 1500, conn.ListenConfig{}, 0, ccc, ss2022.NoPadding)
+	info, sess, err := c.NewSession(context.Background())
+	if err != nil {
+		return nil, info, err
+	}
+	w.sess[name] = &sess
+	w.info[name] = info
+	return &sess, info, nil
+}
+
+func (w *ss2022Wire) pack(name, target string, payload []byte) ([]byte, error) {
+	sess, info, err := w.session(name)
+	if err != nil {
+		return nil, err
+	}
+	ta, err := conn.ParseAddr(target)
+	if err != nil {
+		return nil, err
+	}
+	front := info.PackerHeadroom.Front
+	b := make([]byte, front+len(payload)+info.PackerHeadroom.Rear+64)
+	copy(b[front:], payload)
+	_, ps, pl, err := sess.Packer.PackInPlace(context.Background(), b, ta, front, len(payload))
+	if err != nil {
+		return nil, err
+	}
+	return append([]byte(nil), b[ps:ps+pl]...), nil
+}
+
+func (w *ss2022Wire) unpack(name string, pkt []byte, from netip.AddrPort) (string, []byte, error) {
+	sess, _, err := w.session(name)
+	if err != nil {
+		return "", nil, err
+	}
+	b := append([]byte(nil), pkt...)
+	src, ps, pl, err := sess.Unpacker.UnpackInPlace(b, from, 0, len(b))
+	if err != nil {
+		return "", nil, err
+	}
+	return src.String(), b[ps : ps+pl], nil
+}
+
+func (w *ss2022Wire) garbage() []byte {
+	b := make([]byte, 48)
+	for i := range b {
+		b[i] = byte(i*37 + 11)
+	}
 	return b
 }
 
@@ -355,17 +456,29 @@ func runBehaviour(t *testing.T, in *vio.Input, bi int, b vio.Behaviour, v varian
 	natAddr := map[string]netip.AddrPort{} // session -> relay-side socket address seen by targets
 	sentPayload := map[string]string{}     // payload -> session
 	expectArrive := map[string]string{}    // payload -> model target
+	cliIdx := map[string]int{}             // the address (1 or 2) the session's client currently sends from
 	client := func(s string) *relayenv.Sock {
-		if c := e.clients[s]; c != nil {
+		idx := cliIdx[s]
+		if idx == 0 {
+			idx = 1
+		}
+		k := fmt.Sprintf("%s@%d", s, idx)
+		if c := e.clients[k]; c != nil {
 			return c
 		}
 		c, err := relayenv.ListenSock("127.0.0.1:0", false)
 		if err != nil {
 			t.Fatal(err)
 		}
-		e.clients[s] = c
+		e.clients[k] = c
 		return c
 	}
+	var wr wire = socks5Wire{}
+	if v.Server == "ss2022" {
+		wr = &ss2022Wire{relay: addr, sess: map[string]*zerocopy.UDPClientSession{}, info: map[string]zerocopy.UDPClientSessionInfo{}}
+	}
+	lastPkt := map[string][]byte{}
+	warnCount := func() int { return r.Logs.FilterLevelExact(zapcore.WarnLevel).Len() }
 	// checkArrivals: every datagram must be at the socket of the target its session named, nowhere else
 	checkArrivals := func(si int) {
 		for name, ts := range e.targets {
@@ -409,7 +522,10 @@ func runBehaviour(t *testing.T, in *vio.Input, bi int, b vio.Behaviour, v varian
 		case "RecvPkt":
 			seq[a.S]++
 			payload := fmt.Sprintf("%s#%d>%s", a.S, seq[a.S], a.T)
-			pkt, err := relayenv.Socks5UDP(e.addrOf[a.T], []byte(payload))
+			if a.From != 0 {
+				cliIdx[a.S] = a.From
+			}
+			pkt, err := wr.pack(a.S, e.addrOf[a.T], []byte(payload))
 			if err != nil {
 				brk("%v", err)
 				return
@@ -430,6 +546,7 @@ func runBehaviour(t *testing.T, in *vio.Input, bi int, b vio.Behaviour, v varian
 				delete(w.sessOf, w.keyOf[a.S])
 				w.mu.Unlock()
 			}
+			lastPkt[a.S] = pkt
 			if _, err := client(a.S).Conn.WriteToUDP(pkt, relayAddr); err != nil {
 				brk("%v", err)
 				return
@@ -445,10 +562,9 @@ func runBehaviour(t *testing.T, in *vio.Input, bi int, b vio.Behaviour, v varian
 				return
 			}
 		case "Garbage":
-			warnCount := func() int { return r.Logs.FilterLevelExact(zapcore.WarnLevel).Len() }
 			warns := warnCount()
 			inserts := w.signalCount("relay.recv.afterInsert", a.S) + w.signalCount("relay.recv.afterInsert", "")
-			if _, err := client(a.S).Conn.WriteToUDP([]byte{0, 0, 1, 9, 9}, relayAddr); err != nil {
+			if _, err := client(a.S).Conn.WriteToUDP(wr.garbage(), relayAddr); err != nil {
 				brk("%v", err)
 				return
 			}
@@ -462,6 +578,39 @@ func runBehaviour(t *testing.T, in *vio.Input, bi int, b vio.Behaviour, v varian
 			}
 			if got := w.signalCount("relay.recv.afterInsert", a.S) + w.signalCount("relay.recv.afterInsert", ""); got != inserts {
 				fail("relay.garbage/creates-session", "a datagram that does not parse created a table entry", si, inserts, got)
+			}
+		case "Move":
+			cliIdx[a.S] = 2
+		case "Forged":
+			// a datagram carrying the live session's id from a foreign address that cannot authenticate:
+			// alternately a replay of the session's last packet and the same packet with a flipped tag bit
+			pkt := append([]byte(nil), lastPkt[a.S]...)
+			if len(pkt) == 0 {
+				brk("no packet to forge from")
+				return
+			}
+			if (si+bi)%2 == 0 {
+				pkt[len(pkt)-1] ^= 0x40
+			}
+			foreign := e.clients["foreign"]
+			if foreign == nil {
+				foreign, err = relayenv.ListenSock("127.0.0.1:0", false)
+				if err != nil {
+					t.Fatal(err)
+				}
+				e.clients["foreign"] = foreign
+			}
+			warns := warnCount()
+			if _, err := foreign.Conn.WriteToUDP(pkt, relayAddr); err != nil {
+				brk("%v", err)
+				return
+			}
+			dl := time.Now().Add(stepTimeout)
+			for warnCount() == warns && time.Now().Before(dl) {
+				time.Sleep(2 * time.Millisecond)
+			}
+			if warnCount() == warns {
+				fail("relay.isolation/forged-datagram-accepted", "a replayed/forged datagram from a foreign address was not refused", si, "refused", "no warning logged")
 			}
 		case "InitOk":
 			if pt, ok := w.waitParked(a.S, "init", stepTimeout, "relay.init.beforeSwap"); !ok {
@@ -627,19 +776,29 @@ func runBehaviour(t *testing.T, in *vio.Input, bi int, b vio.Behaviour, v varian
 				brk("downlink not parked")
 				return
 			}
-			d, ok := client(a.S).Recv(stepTimeout)
+			want := a.toInt()
+			if want == 0 {
+				want = 1
+			}
+			owner := e.clients[fmt.Sprintf("%s@%d", a.S, want)]
+			if owner == nil {
+				brk("the model sends the reply to an address the client never used")
+				return
+			}
+			d, ok := owner.Recv(stepTimeout)
 			if !ok {
-				fail("relay.isolation/reply-lost", "the reply was not delivered to the client that owns the session", si, a.S, nil)
+				fail("relay.isolation/reply-lost", fmt.Sprintf("the reply was not delivered to the session's latest authenticated client address (#%d)", want), si, a.S, nil)
 			} else {
-				src, payload, err := relayenv.ParseSocks5UDP(d.Payload)
+				src, payload, err := wr.unpack(a.S, d.Payload, addr)
 				if err != nil || string(payload) != "re:"+a.S {
-					fail("relay.isolation/reply-garbled", "the client received something else than the reply", si, "re:"+a.S, string(d.Payload))
+					fail("relay.isolation/reply-garbled", "the client received something else than the reply", si, "re:"+a.S, fmt.Sprintf("%q (%v)", d.Payload, err))
 				} else if want := e.targets[replyFrom[a.S]].Addr.String(); src != want {
 					fail("relay.isolation/reply-wrong-source", "the reply does not carry the true source", si, want, src)
 				}
 			}
+			ownKey := fmt.Sprintf("%s@%d", a.S, want)
 			for s2, c := range e.clients {
-				if s2 == a.S {
+				if s2 == ownKey {
 					continue
 				}
 				for _, d := range c.Drain() {
